@@ -11,7 +11,7 @@ INFO = {
                   'rtamt.pastifier.stl.pastifier (interval rebuilding)', 'rtamt.spec.abstract_specification (unit, set_sampling_period)'],
     'bounds': {'quick': '6 bounded operators x duration pairs (0,2)(1,2)(1,3) samples x 12 spellings (unit on both/one end, mixed units, default unit via spec.unit, '
                         'bound constants, sampling period given in s/ms/us, decimal literals) x offline/online/pastified-online, N=5; non-multiples of the period; '
-                        'dense time: 4 operators x 5 spellings, n=3',
+                        'dense time: 4 operators x 5 spellings, n=3; one object configured twice (same number in another unit, another number, a configuration that puts a bound off the grid), offline after an evaluate() and online after pastify()',
                'thorough': 'more duration pairs, N=7, nested formulas with mixed units'},
     'outside': 'ps unit (in the lexer but not in the unit table); bounds with unit on begin only',
     'assumptions': ['each spelling is compared with the README semantics of the sample-level formula, hence with every other spelling'],
